@@ -34,6 +34,9 @@ def jobj(pairs):
     return Enum('Value', 'Object', [HMap([[k if isinstance(k, Str) else Str(k), v] for k, v in pairs], True)])
 
 
+SORT_SYMBOLIC_KEYS = True
+
+
 def jobj_seq(pairs):
     """object whose members print in the given order (direct serialisation)"""
     o = jobj(pairs)
@@ -412,7 +415,14 @@ def from_value(interp, j, t):
 
 # ---- printing / parsing ------------------------------------------------------------------------
 
+ESCAPE_SYMBOLIC = True
+
+
 def escape_json_string(s):
+    if not ESCAPE_SYMBOLIC and s.py() is None:
+        # the escaped form of a symbolic string as one opaque chunk (the harness that switches this on only
+        # parses the text back; serde_json's escaping itself is outside the claim)
+        return Str((34, Opaque('json-escaped', s), 34))
     out = [34]
     for c in s.cs:
         if isinstance(c, Opaque):
@@ -484,7 +494,12 @@ def to_text(interp, j, pretty, indent=0):
         m = j.vals[0]
         if not m.items:
             return Str('{}')
-        items = B.sorted_pairs(interp, m.items) if m.ordered else m.items
+        if m.ordered and not SORT_SYMBOLIC_KEYS and any(deref(kk).py() is None for kk, _ in m.items):
+            # member order of the printed text is not observed by the harness that switched this off
+            # (the text is only parsed back): skip the n! case split of sorting symbolic keys
+            items = m.items
+        else:
+            items = B.sorted_pairs(interp, m.items) if m.ordered else m.items
         out = Str('{')
         for i, (kk, x) in enumerate(items):
             out = out.concat(Str((',' if i else '') + nl)).concat(escape_json_string(kk))
